@@ -921,6 +921,23 @@ class Exec:
                             heaps.append(recv)
                         elif isinstance(recv, ast.Name) and recv.id in argmap:
                             heaps.append(argmap[recv.id])
+                    if isinstance(c, ast.Call) and isinstance(c.func, ast.Name) and depth == 0:
+                        # a module-level function of the repository with a contract: the argument objects it may modify
+                        try:
+                            rr = self.repo.resolve_name(frame.mod, c.func.id)
+                        except Exception:  # noqa: BLE001
+                            rr = None
+                        if rr and rr[0] == "func":
+                            con = self.registry.get(f"{rr[1].name}:{rr[2].name}")
+                            if con is not None and con.target not in self.contract.inline and not con.always_inline:
+                                pnames = [a.arg for a in rr[2].args.args]
+                                amap2 = dict(zip(pnames, c.args))
+                                amap2.update({k.arg: k.value for k in c.keywords if k.arg})
+                                for path in con.modifies:
+                                    on, _, fn_ = path.partition(".")
+                                    if not fn_ and on in amap2:
+                                        heaps.append(amap2[on])
+                        continue
                     if not (isinstance(c, ast.Call) and isinstance(c.func, ast.Attribute) and isinstance(c.func.value, ast.Name) and c.func.value.id == "self"):
                         continue
                     r = method(c.func.attr)
